@@ -20,7 +20,7 @@ class ImmutableKnotVector(tuple):
         unique = []
         for node in vector:
             for knot in unique:
-                if abs(node - knot) < 1e-6:
+                if node == knot:
                     break
             else:
                 unique.append(node)
